@@ -171,6 +171,17 @@ func main() {
 	w = buildWorld()
 	buildBlockWorld()
 
+	if os.Getenv("VERIF_C09_DEBUG") != "" {
+		var ks []string
+		for k := range bw.base.leaves {
+			ks = append(ks, k)
+		}
+		sort.Strings(ks)
+		for _, k := range ks {
+			l := bw.base.leaves[k]
+			fmt.Printf("leaf %-20s balance=%v nonce=%d codehash=%x\n", w.nameOf(k), l.a.Balance, l.a.Nonce, l.a.CodeHash[:4])
+		}
+	}
 	if r.ReplayPath != "" {
 		var rc replayCase
 		if err := r.LoadReplay(&rc); err != nil {
